@@ -379,6 +379,12 @@ func (a *AliveDialerSet) NotifyLatencyChange(dialer *Dialer, alive bool) {
 	} else if alive && minPolicy && a.minLatency.dialer == nil {
 		// Use first dialer if no dialer has alive state (usually happen at the very beginning).
 		a.minLatency.dialer = dialer
+		// Not alive -> alive: the group has a selectable dialer again. Report the edge like the
+		// measured-latency path above does, otherwise a group that went all-dead stays marked
+		// dead (e.g. data-UDP sets, which are revived by traffic and never carry a latency).
+		a.mu.Unlock()
+		a.aliveChangeCallback(true)
+		a.mu.Lock()
 		if a.log.IsLevelEnabled(logrus.InfoLevel) {
 			a.log.WithFields(logrus.Fields{
 				"group":   a.dialerGroupName,
